@@ -507,6 +507,19 @@ def main():
     except Exception as e:
         status['lamtrans'] = 'failed: %s' % e
     try:
+        import lamtrans
+        g12 = dict(golden)
+        txt, ist = lamtrans.lean_file_img(g12)
+        changed |= write_if_changed(os.path.join(GEN, 'ImgGen.lean'), txt)
+        for k_, v_ in ist.items():
+            status['functions'][k_] = dict(v_, lean='Img.' + k_[4:], params=[], bools=[], selfattrs=[], absparams=[], nret=1, abscalls=[])
+        if update:
+            for k_, v_ in g12.items():
+                if k_.startswith('img:'):
+                    golden[k_] = v_
+    except Exception as e:
+        status['lamtrans_img'] = 'failed: %s' % e
+    try:
         import cachesites
         txt, sites = cachesites.lean_table(os.environ.get('IXPE_REPO', os.path.dirname(os.path.dirname(importlib.import_module('ixpeobssim').__file__))))
         changed |= write_if_changed(os.path.join(GEN, 'CacheSites.lean'), txt)
